@@ -310,7 +310,8 @@ pub fn eval_plan(env: &Env, w: &CliWorld, cmd: &Cmd, plan: &Plan, baselines: &mu
   let mut exp_skipped = 0usize;
   // the union ranges over every file of the tree that the ignore rules do not exclude, not
   // only over what the walker reported: a file lost at discovery must show up as missing
-  let ignored = |p: &str| w.ignore_file.is_some() && p.split('/').any(|c| c == "vendor");
+  // hidden directories are never walked; `vendor/` only when the generated .ignore says so
+  let ignored = |p: &str| p.split('/').any(|c| c.starts_with('.')) || (w.ignore_file.is_some() && p.split('/').any(|c| c == "vendor"));
   let mut universe: Vec<String> = sched.discovered.clone();
   // ... restricted to the files the command is meant to process: for `scan` the languages
   // rules are written for, for `run -l L` that language (files of other languages are not
